@@ -18,11 +18,15 @@ const PROP: &str = "C12";
 const SHAPES: [&str; 15] = [
     "flag-short", "flag-long", "flag-both", "count-short", "count-long", "opt-short", "opt-long", "opt-both", "opt-optional", "opt-req-eq", "opt-multi", "pos-required", "pos-optional", "pos-multi", "pos-last",
 ];
-const MODS: [&str; 14] = [
+const MODS: [&str; 20] = [
     "none", "hide", "hide-short-help", "hide-long-help", "next-line-help", "heading", "long-help", "possible-values", "possible-values-unicode", "default", "env", "visible-alias", "long-text", "possible-values-all-hidden",
+    // combinations (applied left to right): the short/long decision of `--help` reads several of these
+    "arg-hide-pv", "possible-values+arg-hide-pv", "hide-short-help+arg-hide-pv", "hide-long-help+arg-hide-pv", "hide-short-help+possible-values", "hide-short-help+heading",
 ];
-const CMODS: [&str; 11] = [
+const CMODS: [&str; 12] = [
     "none", "next-line-help", "flatten-help", "tmpl-options", "tmpl-positionals", "tmpl-subcommands", "tmpl-all-args", "sub-heading", "before-after", "flatten-equal-display-order", "hide-possible-values",
+    // every argument gets the same display order and the second short is the first one's capital
+    "equal-order-case-shorts",
 ];
 
 fn mk_arg(n: usize, shape: &str, m: &str) -> ArgSpec {
@@ -83,7 +87,9 @@ fn mk_arg(n: usize, shape: &str, m: &str) -> ArgSpec {
     }
     a.help = Some(format!("HELPMARK{}", n));
     let takes = a.act().takes_values() && a.action != Some(Act::Count) && a.action != Some(Act::SetTrue);
+    for m in m.split('+') {
     match m {
+        "arg-hide-pv" => a.hide_possible_values = true,
         "hide" => a.hide = true,
         "hide-short-help" => a.hide_short_help = true,
         "hide-long-help" => a.hide_long_help = true,
@@ -115,6 +121,7 @@ fn mk_arg(n: usize, shape: &str, m: &str) -> ArgSpec {
         "visible-alias" if a.long.is_some() => a.visible_aliases.push(format!("valias{}", n)),
         "long-text" => a.help = Some(format!("HELPMARK{} {}", n, "word ".repeat(30))),
         _ => {}
+    }
     }
     a
 }
@@ -163,6 +170,14 @@ fn mk_cmd(args: Vec<ArgSpec>, cm: &str, width: usize) -> CmdSpec {
             c.set(Setting::FlattenHelp);
         }
         "hide-possible-values" => c.set(Setting::HidePossibleValues),
+        "equal-order-case-shorts" => {
+            for a in c.args.iter_mut() {
+                a.display_order = Some(0);
+            }
+            if c.args.len() >= 2 && c.args[0].short.is_some() && c.args[1].short.is_some() {
+                c.args[1].short = c.args[0].short.map(|s| s.to_ascii_uppercase());
+            }
+        }
         _ => {}
     }
     c.subs.push(vis);
@@ -373,7 +388,7 @@ fn cfgs12(max_args: usize) -> Vec<Cfg> {
     }
     if max_args >= 2 {
         // second argument: every shape with a reduced modifier set, command modifier reduced too
-        for cm in ["none", "next-line-help", "flatten-help"] {
+        for cm in ["none", "next-line-help", "flatten-help", "equal-order-case-shorts"] {
             for &(s, m) in &pairs {
                 for s2 in 0..SHAPES.len() {
                     for m2 in ["none", "hide", "heading", "next-line-help"] {
